@@ -120,6 +120,9 @@ impl World {
                     let id = self.next_conn;
                     let r: io::Result<Client> = match &self.addrs[l] {
                         Addr::Tcp(a) => std::net::TcpStream::connect(a).and_then(|mut s| {
+                            // close with RST: thousands of short-lived loopback connections must not pile up in
+                            // TIME_WAIT and exhaust the ephemeral ports of the machine
+                            let _ = socket2::SockRef::from(&s).set_linger(Some(Duration::ZERO));
                             s.write_all(&id.to_be_bytes())?;
                             Ok(Client::Tcp(s))
                         }),
